@@ -181,6 +181,11 @@ def ew(ex, f, *vals, real_result=False, dtype=None, intcheck=True):
         return r
 
     out = ArrV(base.shape, fn, dt, mask=mask)
+    labs = {labels_of(a) for a in arrs} - {None}
+    if len(labs) > 1:
+        raise OutOfSubset("element-wise operation on two pandas Series with different row labels (pandas aligns on labels, not positions)")
+    if labs:
+        out.labels = next(iter(labs))
     return out
 
 
@@ -536,6 +541,8 @@ def setitem(ex, o, idx, val):
         if isinstance(v, T):
             n = next(iter(o.cols.values())).shape[0] if o.cols else tm.const(0)
             v = ArrV((n,), lambda i, v=v: v, "i8" if v.sort == tm.I else "f8")
+        if o.kind == "DataFrame" and labels_of(v) is not None and labels_of(v) != o.index_id:
+            raise OutOfSubset("frame[column] = series whose row labels are another frame's: pandas aligns the store on labels (positional only when both indices happen to be equal)")
         o.cols = dict(o.cols)
         o.cols[idx] = v
         o.version += 1
@@ -646,18 +653,29 @@ def arr_setitem(ex, a, idx, val):
 # tables (dict of arrays / DataFrame)
 
 
+def series_of(t, col):
+    """a column of a pandas DataFrame is a Series carrying the frame's row labels"""
+    if t.kind == "DataFrame" and isinstance(col, ArrV):
+        col.labels = t.index_id
+    return col
+
+
+def labels_of(v):
+    return getattr(v, "labels", None) if isinstance(v, ArrV) else None
+
+
 def table_getitem(ex, t, idx):
     if isinstance(idx, str) and idx in ("<str>", "<fstring>", "<repr>"):
         raise OutOfSubset("column lookup with a computed string key")
     if isinstance(idx, str):
         if idx not in t.cols:
             raise Raised("KeyError", idx)
-        return t.cols[idx]
+        return series_of(t, t.cols[idx])
     if isinstance(idx, list) and all(isinstance(x, str) for x in idx):
         for x in idx:
             if x not in t.cols:
                 raise Raised("KeyError", x)
-        return TableV({x: t.cols[x] for x in idx}, t.kind)
+        return TableV({x: t.cols[x] for x in idx}, t.kind, t.index_id)
     if isinstance(idx, ArrV) and idx.dtype == "b":
         if t.kind != "DataFrame":
             raise Raised("KeyError")
@@ -756,7 +774,7 @@ def lib_getattr(ex, o, name):
             return LibFn("repr", lambda ex: "<repr>")
         if o.kind == "DataFrame" and name in o.cols:
             used(ex, "pandas: attribute access to a column")
-            return o.cols[name]
+            return series_of(o, o.cols[name])
         # an attribute the real container has but this model does not: outside the subset (never "raises AttributeError")
         if o.kind == "dict" and hasattr(dict, name):
             raise OutOfSubset("dict." + name)
@@ -1272,6 +1290,14 @@ def np_asarray(ex, v, dtype=None, **kw):
         raise OutOfSubset(f"np.asarray options {sorted(kw)}")
     vv = v.arr if isinstance(v, MapList) else v
     if isinstance(vv, ArrV) and (dtype is None or dtype_code(dtype) == vv.dtype):
+        if labels_of(vv) is not None:
+            # np.asarray(series) is the underlying ndarray: the same memory, no row labels
+            plain = ArrV(vv.shape, None, vv.dtype, mask=vv.mask)
+            root, rmap = (vv, (lambda idx: idx))
+            if vv.view_of is not None:
+                root, rmap = vv.view_of
+            plain.view_of = (root, rmap)
+            return plain
         return vv
     return np_array(ex, v, dtype)
 
@@ -1948,7 +1974,11 @@ def pd_dataframe(ex, data=None, **kw):
                 raise OutOfSubset("scalar column")
             cols[k] = a
         used(ex, "pandas DataFrame(dict of columns): table with those columns")
-        return TableV(cols, "DataFrame")
+        labs = {labels_of(a) for a in cols.values()} - {None}
+        if len(labs) > 1:
+            raise OutOfSubset("DataFrame built from Series with different row labels")
+        # all plain arrays: a fresh RangeIndex; Series among them: their labels
+        return TableV(cols, "DataFrame", next(iter(labs)) if labs else None)
     if isinstance(data, RecArrV):
         used(ex, "pandas DataFrame(record array): one column per field")
         return TableV(dict(data.fields), "DataFrame")
